@@ -832,9 +832,13 @@ func classify(pat, rw string, d *diff) string {
 		return "merge-of-nullable-group"
 	}
 	for _, m := range reLitAlt.FindAllStringSubmatch(pat, -1) {
-		m[1] = strings.TrimPrefix(m[1], ":")
-		if d.Kind == "match" && m[1] != "" && strings.HasPrefix(m[2], m[1]) && utf8.RuneCountInString(m[2]) == utf8.RuneCountInString(m[1])+1 {
-			return "alt-prefix-order"
+		// the first branch is a suffix of m[1] (group syntax such as "i:" or "<q>" may precede it)
+		rs := []rune(m[1])
+		for k := 0; k+2 <= len(rs); k++ {
+			a := string(rs[k:])
+			if d.Kind == "match" && strings.HasPrefix(m[2], a) && utf8.RuneCountInString(m[2]) == len(rs)-k+1 {
+				return "alt-prefix-order"
+			}
 		}
 	}
 	return "unclassified"
